@@ -2,11 +2,11 @@
 import json
 import session
 
-C06_PREDS = ["C06_RemoteFilter", "C06_UniqueIds", "C06_NoDupPairs", "C06_PairsFromCurrent", "C06_SelListed", "C06_IdStable",
+C06_PREDS = ["C06_RemoteFilter", "C06_UniqueIds", "C06_IdAddresses", "C06_NoDupPairs", "C06_PairsFromCurrent", "C06_SelListed", "C06_IdStable",
              "C06_RemotesDeduped", "C06_NoResidue", "C06_NoResidueNew", "C06_SupersessionPreserves"]
 C02_PREDS = ["C02_BadRequestInert", "C02_BadResponseInert", "C02_ErrorInert", "C02_NonBindingInert", "C02_IndicationOnlyLiveness",
              "C02_UnmatchedResponse", "C02_MatchedOnly"]
-C03_PREDS = ["C03_SelValidated", "C03_LiteSelectsOnNomination", "C03_NoUCFromControlled", "C03_LiteNeverRequests", "C03_NoDowngrade"]
+C03_PREDS = ["C03_SelValidated", "C03_SelectedIsValid", "C03_LiteSelectsOnNomination", "C03_NoUCFromControlled", "C03_LiteNeverRequests", "C03_NoDowngrade"]
 C04_PREDS = ["C04_TimingRule", "C04_CheckingDeadline", "C04_LifecycleStrict", "C04_NotifiedIsActual", "C04_SelWhileConnected",
              "C04_ReleasedOnFailed"]
 C05_PREDS = ["C05_Rule", "C05_SwitchOnlyOnConflict"]
@@ -56,6 +56,7 @@ def c03(tier, seed):
     runs[0]["scheds"] = ["nm_selvalid", "nm_ctlsel_uc"]
     runs[1]["scheds"] = ["nm_prioless", "c03_early_uc_low_then_high_selected"]
     runs.append(dict(cfg="pnatc", traces=w, drain=True, preds=C03_PREDS, scheds=["c03_supersede_while_nominating"]))
+    runs[2]["scheds"] = ["c03_supersede_under_deferred_nomination"]       # runs[2] is pnat
     runs.append(dict(cfg="p21inj", traces=w, drain=True, zerowait=True, preds=C03_PREDS, scheds=["c03_plain_uc_after_valued"]))
     # a misbehaving peer that makes an agent switch role mid-session: what the old role left behind must not select anything
     for c in ("pinjrole", "p21injrole"):
